@@ -39,9 +39,10 @@ META = {
         "to exactly one sink - one freshly constructed pending_xref/download_reference given to _process_wrap_node, or one "
         "delegation to another render_link_* handler; private helpers are summarised; _process_wrap_node attaches the wrap "
         "node once, the inner node once, and renders the token's children beneath the inner node exactly when the text is "
-        "explicit; in a handler that can also hand the link to project-wide resolution, the download (local non-document "
-        "file) outcome is only reached under a regular-file test (is_file/isfile, followed through locals, the guards of their "
-        "bindings and predicate helpers) - an existence test alone is a violation. "
+        "explicit; a wrap node may also be a plain docutils node constructed in the call (a given-up link that keeps its "
+        "text); every download_reference (local non-document file) is only created under a regular-file test (is_file/isfile, "
+        "followed through locals, the guards of their bindings and predicate helpers) - an existence test alone or no test "
+        "is a violation (Sphinx's download collector would answer with a non-myst warning). "
         "R2 resolver totality: in MystReferenceResolver.run every pending_xref with reftype 'myst' is replaced exactly once "
         "on every path (helpers summarised, delegates such as resolve_myst_ref_doc judged per exit). "
         "R3 exactly one warning: a finite path enumeration with an abstract state - nullness of 'may answer None' lookups, "
@@ -50,15 +51,19 @@ META = {
         "membership tests, hoisted boolean flags, conditional-expression assignments as branches, taint of the link-text "
         "subtree, constant propagation of the empty string into node constructors - shows that resolver paths on which "
         "resolution failed pass exactly one XREF_MISSING warning, all other paths none, that the replacement contains the "
-        "original text subtree unless the implicit-text branch was taken, and that no path inserts a reference whose only "
+        "original text subtree unless the implicit-text branch was taken, that no path puts the bare copy of the link's "
+        "text placeholder (node[0], empty for a link written without text) in the link's place without the code having "
+        "inspected or filled it (directly or in a helper that tests/extends its children) unless the explicit-text branch "
+        "was taken, and that no path inserts a reference whose only "
         "text is the constant \"\". Helpers that warn are summarised (uniform count) or inlined with the caller's facts "
         "(two levels). Each XREF_MISSING log_warning interpolates its own target. log_warning itself leaves without emitting "
         "only after a nitpick_ignore / nitpick_ignore_regex match (followed through flags and one helper level), and the "
         "patterns of nitpick_ignore_regex entries are applied to the whole type / target (re.fullmatch, the operations found "
         "in the installed Sphinx ReferencesResolver source are the oracle). In the renderer a failed lookup that gives up to "
         "render_link_url - path2doc answered None, the lookup (relfn2path/path2doc) raised inside a try whose handler is "
-        "entered, or the destination contains a character no path can contain (NUL) - passes exactly one XREF_MISSING "
-        "warning and paths that create a wrap node pass none. "
+        "entered, a regular-file test was false, or the destination contains a character no path can contain (NUL) - passes "
+        "exactly one XREF_MISSING warning (giving up = delegation to render_link_url or a text-only wrap node) and paths "
+        "that create a reference pass none. "
         "R4 roles: at every make_refnode / docname_join / Domain.resolve_(any_)xref call the 'from' slot derives from refdoc "
         "(or the current docname) and the 'to'/'target' slot from reftarget or a registry docname, traced through locals, "
         "tuple unpacking and parameters over the call graph; a docname computed by hand (posixpath/os.path join + normpath "
@@ -70,13 +75,16 @@ META = {
         "reftarget that can reach the constructor (falsy constants are excluded when a truthiness test of the name dominates "
         "it; a, b = x, y is read element-wise) comes out of path2doc, and reftargetid is the part after '#' (split / partition / star-target idioms, NamedTuple- or "
         "tuple-returning split helpers followed); relfn2path receives the part before '#' and the current docname; a non-doc "
-        "reference keeps the whole destination; every href-derived value that reaches reftarget / reftargetid / relfn2path "
-        "has passed normalizeLinkText (flow-sensitive reaching definitions) because markdown-it percent-encodes hrefs while "
-        "the registries are keyed by decoded text. "
+        "reference keeps the whole destination (also when it is put together again from its parts); every href-derived "
+        "value that reaches reftarget / reftargetid / relfn2path has been completely percent-decoded (urllib.parse.unquote; "
+        "markdown-it's display helper normalizeLinkText leaves reserved characters encoded and counts as partial) - traced "
+        "flow-sensitively and through the module's private helpers with parameter binding and element-wise tuple results - "
+        "and the destination is split at '#' while still encoded, so that a decoded '%23' of a file name is not taken for "
+        "the separator. "
         "R6 scheme removal: 'path:' / 'project:' are removed from a destination by an exact prefix removal (slice offset = "
         "length of the prefix tested by the guarding startswith(), or removeprefix); a character-set strip containing name "
         "characters is a violation. "
-        "R7 local '#' table: the table of document-local targets that ResolveAnchorIds consults before handing a '#name' link "
+        "R7 local '#' table: the table of document-local targets keyed by docutils names that ResolveAnchorIds consults before handing a '#name' link "
         "to project-wide resolution - also when it is built in a helper or a dict comprehension - is filled only under a "
         "truthy document.nametypes value (explicit targets), as Sphinx's StandardDomain.process_doc does. "
         "R8 slug registry: every key stored into the mapping saved as env.metadata[doc]['myst_slugs'] was tested absent from "
@@ -85,13 +93,17 @@ META = {
         "heading's (slug -> section id, title) entry is overwritten. "
         "The resolver reads that registry through the same access path below the environment as the renderer saved it, and "
         "the element of the entry that the resolver passes to make_refnode as target id is read from the section node's "
-        "assigned ids (node['ids'] / nameids), not recomputed from the heading text (make_id, slug functions). "
+        "assigned ids (node['ids'] / nameids), not recomputed from the heading text (make_id, slug functions); the title "
+        "element is stored back from the tree (clean_astext) by code that runs after Sphinx's i18n Locale transform (a "
+        "Transform whose default_priority is above Locale's, read from the installed sphinx source), so that translated "
+        "builds show the translated title. "
         "R10 rewrite scope: a markdown-it env entry that the Sphinx link handlers read to rewrite destinations "
         "('relative-docs', set by the include mock around its nested render) is put back to its saved value (or popped, "
         "directly or by a restoring helper) on every normal and exceptional path after it was set, so that links after the "
         "include are not rewritten. "
         "R9 label keys: keys looked up in the std domain's labels / anonlabels are lower-cased on every flow "
-        "(flow-sensitive, through parameters, their defaults and all call sites)."
+        "(flow-sensitive, through parameters, their defaults and all call sites); a label lookup returns None only on paths "
+        "that consulted anonlabels, the complete registry (labels holds only the labels that have a title or caption)."
     ),
     "not_decided": (
         "URI correctness as a value (make_refnode/get_relative_uri, relfn2path, path2doc and docname_join are Sphinx functions "
@@ -112,7 +124,8 @@ META = {
         "Sphinx stores std-domain label names lower-cased (docutils-normalised names) and skips non-explicit names in StandardDomain.process_doc",
         "sphinx/transforms/post_transforms/__init__.py as installed (parsed, not imported): regex operations applied to nitpick_ignore_regex entries",
         "sphinx.util.docname_join treats a target with a leading '/' as relative to the source root",
-        "markdown-it's normalizeLink percent-encodes hrefs; normalizeLinkText decodes them",
+        "markdown-it's normalizeLink percent-encodes hrefs; normalizeLinkText decodes only what is safe to display; urllib.parse.unquote decodes completely",
+        "sphinx/transforms/i18n.py as installed: Locale.default_priority; StandardDomain keeps every label in anonlabels and only titled ones in labels",
         "tables in the module: NULLABLE_EXTERNALS, RAISING_LOOKUPS, IMPOSSIBLE_PATH_CHARS, NODE_CONSUMERS, FILE_TESTS / EXIST_TESTS, ROLE_SITES",
     ],
     "assumptions": [
@@ -3264,6 +3277,8 @@ def r8_slug_registry_no_overwrite(corpus: Corpus, rep: Report, tier: str):
         for f in corpus.all_functions():
             if f.is_lambda or (f.cls is not None and f.cls.fq in base_fqs):
                 continue  # the renderer records titles while parsing, before any transform runs
+            if "myst_slugs" not in f.module.src or not any((isinstance(y, ast.Constant) and y.value == "myst_slugs") or (isinstance(y, ast.Attribute) and y.attr == "myst_slugs") for y in f.local_nodes()):
+                continue
             tabs = {nm for nm in {x.id for x in f.local_nodes() if isinstance(x, ast.Name)} if any(pos is None and any((isinstance(y, ast.Constant) and y.value == "myst_slugs") or (isinstance(y, ast.Attribute) and y.attr == "myst_slugs") for y in ast.walk(v)) for _, v, pos in assignments_to(f, nm))}
             for stn in f.local_nodes():
                 if isinstance(stn, ast.Subscript) and isinstance(stn.ctx, ast.Store) and isinstance(stn.value, ast.Name) and stn.value.id in tabs:
@@ -3463,7 +3478,7 @@ def r10_rewrite_scope(corpus: Corpus, rep: Report, tier: str):
 
     n = 0
     for fi in corpus.all_functions():
-        if fi.is_lambda:
+        if fi.is_lambda or "md_env" not in fi.module.src or not any(isinstance(y, ast.Attribute) and y.attr == "md_env" for y in fi.local_nodes()):
             continue
         sets, restores = [], []
         cur[:] = [fi]
